@@ -53,6 +53,9 @@ UNREACHABLE_STUB(void, VS_DTOR_SHB, (struct S_sequence_handler_base *self), )
 void w_find(void)
 {
   build_world();
+#ifdef VP_REPLAYABLE
+  __CPROVER_assume(spec_constructible());
+#endif
   int x = nondet_int();
   struct vp_tuple_vp_refw_int params; params._0.p = &x;
   struct CMB *r = FIND(&exps->active, &params);
@@ -86,6 +89,9 @@ struct S_tracer *the_tracer;
 void w_call(void)
 {
   build_world();
+#ifdef VP_REPLAYABLE
+  __CPROVER_assume(spec_constructible());
+#endif
   int x = nondet_int();
   _Bool tracing = nondet_bool();
   if (tracing) { the_tracer = VP_NEW(struct S_tracer); the_tracer->vp_tag = VP_TAG_USER_S_tracer; the_tracer->previous = 0; g_tracer_obj_ptr = the_tracer; }
